@@ -91,6 +91,11 @@ def gen_case(rng):
                    "desired_soc": rng.choice([0.8, 1, 0.3]), "soc_delta": -rng.choice([0.1, 0.3, 0.02, 0.6, 0.2])}
             if rng.random() < 0.05:
                 del upd["soc_delta"]
+            r_ = rng.random()
+            if r_ < 0.08:
+                upd["connected_charging_station"] = None          # explicit None values must be written to the vehicle as well
+            elif r_ < 0.16:
+                upd["estimated_time_of_departure"] = None
         elif et == "departure":
             upd = {"estimated_time_of_arrival": scen.iso(st + dt * rng.randint(1, 6))}
             if rng.random() < 0.2:
